@@ -95,3 +95,23 @@ Definition raise_handled_from (e : outcome) (s : st) : R :=
 (** [e.__cause__] of a HandledError *)
 Definition exn_cause (e : outcome) : outcome :=
   match e with OHandled r => ORaise r | _ => e end.
+
+(** value-returning methods (the [exec_iteration]s polled by [while_until_true]) *)
+Definition as_iter (r : R) : iter_result * st :=
+  match r with (o, s) => (IRaise o, s) end.
+Definition andthen_v (r : R) (k : st -> iter_result * st) : iter_result * st :=
+  match r with (OOk, s) => k s | (o, s) => (IRaise o, s) end.
+Definition lift_v {A} (r : res A) (s : st) (k : A -> iter_result * st) : iter_result * st :=
+  match r with
+  | Ok a => k a
+  | Err n m => as_iter (raise_new n m s)
+  | Unsup => (IRaise OUnsup, s)
+  end.
+
+(** [get_error_name(e)] *)
+Definition exn_error_name (e : outcome) : string :=
+  match e with
+  | ORaise r => error_name r
+  | OHandled _ => "pypyr.errors.HandledError"
+  | _ => ""
+  end.
